@@ -136,7 +136,11 @@ def parseCmd {S} (cd : Codec S) (toks : List String) : Option (Cmd S) :=
   | ["idx", v, i] => do pure (.idx v (← parseNats i))
   | ["idxflat", v, i] => do pure (.idxflat v (← i.toNat?))
   | ["eq", a, b] => some (.eq a b)
+  | ["same", a, b] => some (.same a b)
+  | ["samegrad", a, b] => some (.samegrad a b)
+  | ["lin", c, al, a, be, b] => do pure (.lin c (← sc al) a (← sc be) b)
   | ["probe", v] => some (.probe v)
+  | ["flags", v] => some (.flags v)
   | ["probekid", v, i] => do pure (.probekid v (← i.toNat?))
   | ["own", v] => some (.own v)
   | ["log"] => some .log
@@ -177,6 +181,7 @@ def renderOut {S} (cd : Codec S) : Out S → String
   | .probe cnt pend tr keep kids rc =>
     s!"probe cnt={cnt} pend={b01 pend} tr={b01 tr} keep={b01 keep} kids={kids} rc={rc}"
   | .kid tr keep cnt pend => s!"kid tr={b01 tr} keep={b01 keep} cnt={cnt} pend={b01 pend}"
+  | .flags tr keep kids => s!"flags tr={b01 tr} keep={b01 keep} kids={kids}"
   | .nokid => "nokid"
   | .owned vals => "own " ++ joinWith " " (vals.map cd.render)
   | .log entries =>
